@@ -179,6 +179,8 @@ def run(pid, tier, seed):
         if nodef:
             pick["l2"] = 1          # the second list option is one Tor has no built-in default for (TransPort)
             pick["l1"] = min(pick["l1"], 1)
+        if pid == "C11" and i % 7 == 5 and not pick["offline"]:
+            pick["extral"] = True       # the application adds an event listener of its own while the bootstrap starts
         if pid == "C11" and i % 5 == 2:
             pick["midboot"] = ["s2", "l1", "s1"][(i // 5) % 3]       # a change by another controller during our bootstrap
         traces.append(cfgh.replay(s, pick))
